@@ -659,17 +659,17 @@ package engine
 //@ pred matchOk(m Match, d Str, f Str) := 0 <= m.Offset.Start && m.Offset.Start < m.Offset.End && m.Offset.End <= len(d) && m.Value == ssub(d, m.Offset.Start, m.Offset.End) && m.Filename == f
 //@    && (asciiText(d) ==> m.Line.Start == lineOf(d, m.Offset.Start) && m.Line.End == lineOf(d, m.Offset.End) && m.Column.Start == colOf(d, m.Offset.Start) && m.Column.End == colOf(d, m.Offset.End))
 
-//@ func findMatches [C03 C09 C10 C04 C13 C05]
+//@ func findMatches [C03 C09 C10 C04 C13 C05 C06]
 //@   requires reader != nil && rdInv(reader) && skip >= 0 && take >= 0 && last >= 0
 //@   let d := rdData(reader)
 //@   modifies inferred
 //@   ensures each: forall k :: { result[k] } 0 <= k && k < len(result) ==> matchOk(result[k], d, filename)
 //@   ensures ordered: forall k :: { result[k] } { result[k + 1] } 0 <= k && k + 1 < len(result) ==> result[k].Offset.End <= result[k + 1].Offset.Start && result[k + 1].MatchNumber == result[k].MatchNumber + 1
-//@   assumes vars: forall k :: { result[k] } 0 <= k && k < len(result) ==> varsOk(result[k].Variables) [C05]
+//@   assumes vars: forall k :: { result[k] } 0 <= k && k < len(result) ==> varsOk(result[k].Variables) [C05 C06]
 //@   ensures reader: rdInv(reader) && rdData(reader) == d
-//@   ensures norepl: forall k :: { result[k] } 0 <= k && k < len(result) ==> !result[k].Replacement.hasValue [C05]
-//@   loop 1 invariant norepl: forall k :: { matches.store[k] } 0 <= k && k < len(matches.store) ==> !matches.store[k].Replacement.hasValue [C05]
-//@   loop 2 invariant norepl: forall k :: { matches.store[k] } 0 <= k && k < len(matches.store) ==> !matches.store[k].Replacement.hasValue [C05]
+//@   ensures norepl: forall k :: { result[k] } 0 <= k && k < len(result) ==> !result[k].Replacement.hasValue [C05 C06]
+//@   loop 1 invariant norepl: forall k :: { matches.store[k] } 0 <= k && k < len(matches.store) ==> !matches.store[k].Replacement.hasValue [C05 C06]
+//@   loop 2 invariant norepl: forall k :: { matches.store[k] } 0 <= k && k < len(matches.store) ==> !matches.store[k].Replacement.hasValue [C05 C06]
 //@   ensures lastwindow: last != 0 ==> len(result) <= last [C04]
 //@   ensures takewindow: !all && last == 0 ==> len(result) <= take [C04]
 //@   ensures skipfirst: len(result) > 0 ==> result[0].MatchNumber > skip [C04]
@@ -809,7 +809,7 @@ package engine
 //@   modifies *
 //@   requires c != nil && reader != nil && rdInv(reader) && c.Skip >= 0 && c.Take >= 0 && c.Last >= 0 && (mode == NEW || mode == OVERWRITE || mode == NOTHING)
 //@   presumes insts: forall k :: { c.Replacer[k] } 0 <= k && k < len(c.Replacer) ==> c.Replacer[k] != nil
-//@   presumes view: mode == OVERWRITE ==> rdData(reader) == select(fs, filename) [C06]
+//@   presumes view: mode == OVERWRITE ==> rdData(reader) == select(fs, filename)
 //@   let d := rdData(reader)
 //@   let fs0 := fs
 //@   let nr := len(c.Replacer)
@@ -829,10 +829,10 @@ package engine
 //@   loop 2 decreases nr - current_state.programCounter
 //@   loop 3 ghost S (Array Int Str) := store(S, 0, "") ;; store(S, i, select(S, i - 1) ++ ssub(d, select(O, i - 1), replacedMatches[i - 1].Offset.Start) ++ replText(replacedMatches[i - 1]))
 //@   loop 3 ghost O (Array Int Int) := store(O, 0, 0) ;; store(O, i, replacedMatches[i - 1].Offset.Start + len(replacedMatches[i - 1].Value))
-//@   loop 3 invariant io: 0 <= i && i <= len(replacedMatches) && wInv(writer) && rdInv(replaceReader) && rdData(replaceReader) == d && reader.size == len(d) && (mode == NOTHING ? (!wIsFile(writer) && fs == fs0) : (wIsFile(writer) && wFile(writer).name == destName(mode, filename) && fs == store(fs0, destName(mode, filename), select(S, i)))) [C06]
-//@   loop 3 invariant apart: (mode == NOTHING ==> fresh((writer.contents as *files.MemoryStream).contents)) && (rdIsFile(replaceReader) ==> !fresh(rdBF(replaceReader).buffer)) [C06]
-//@   loop 3 invariant offsets: currentWriterOffset == len(select(S, i)) && lastReaderOffset == select(O, i) && 0 <= lastReaderOffset && lastReaderOffset <= len(d) && (i > 0 ==> lastReaderOffset == replacedMatches[i - 1].Offset.End) [C06]
-//@   loop 3 invariant recurrence: select(S, 0) == "" && select(O, 0) == 0 && (forall k :: { replacedMatches[k] } 0 <= k && k < i ==> select(S, k + 1) == select(S, k) ++ ssub(d, select(O, k), replacedMatches[k].Offset.Start) ++ replText(replacedMatches[k]) && select(O, k + 1) == replacedMatches[k].Offset.End) [C06]
+//@   loop 3 invariant io: 0 <= i && i <= len(replacedMatches) && wInv(writer) && rdInv(replaceReader) && rdData(replaceReader) == d && reader.size == len(d) && (mode == NOTHING ? (!wIsFile(writer) && fs == fs0) : (wIsFile(writer) && wFile(writer).name == destName(mode, filename) && fs == store(fs0, destName(mode, filename), select(S, i))))
+//@   loop 3 invariant apart: (mode == NOTHING ==> fresh((writer.contents as *files.MemoryStream).contents)) && (rdIsFile(replaceReader) ==> !fresh(rdBF(replaceReader).buffer))
+//@   loop 3 invariant offsets: currentWriterOffset == len(select(S, i)) && lastReaderOffset == select(O, i) && 0 <= lastReaderOffset && lastReaderOffset <= len(d) && (i > 0 ==> lastReaderOffset == replacedMatches[i - 1].Offset.End)
+//@   loop 3 invariant recurrence: select(S, 0) == "" && select(O, 0) == 0 && (forall k :: { replacedMatches[k] } 0 <= k && k < i ==> select(S, k + 1) == select(S, k) ++ ssub(d, select(O, k), replacedMatches[k].Offset.Start) ++ replText(replacedMatches[k]) && select(O, k + 1) == replacedMatches[k].Offset.End)
 //@   loop 3 invariant matches: (forall j :: { replacedMatches[j] } 0 <= j && j < len(replacedMatches) ==> matchOk(replacedMatches[j], d, filename)) && (forall j :: { replacedMatches[j] } { replacedMatches[j + 1] } 0 <= j && j + 1 < len(replacedMatches) ==> replacedMatches[j].Offset.End <= replacedMatches[j + 1].Offset.Start)
-//@   loop 3 invariant c05: forall j :: { replacedMatches[j] } 0 <= j && j < len(replacedMatches) ==> replText(replacedMatches[j]) == select(select(R, j), nr) && select(select(R, j), 0) == "" && (forall k :: { c.Replacer[k] } 0 <= k && k < nr ==> stepText(select(R, j), k, c.Replacer[k], replacedMatches[j], len(replacedMatches))) [C05]
+//@   loop 3 invariant c05: forall j :: { replacedMatches[j] } 0 <= j && j < len(replacedMatches) ==> replText(replacedMatches[j]) == select(select(R, j), nr) && select(select(R, j), 0) == "" && (forall k :: { c.Replacer[k] } 0 <= k && k < nr ==> stepText(select(R, j), k, c.Replacer[k], replacedMatches[j], len(replacedMatches)))
 //@   loop 3 decreases len(replacedMatches) - i
